@@ -1,7 +1,7 @@
 (** C07 — the structural invariant of the runner (slots <-> cache <-> live sequences) and its preservation by
     the slot-assignment block of completion and by processBatch. *)
 From Coq Require Import List ZArith NArith Bool Arith Lia ZifyBool ZifyNat.
-From V Require Import Common.Bytes Runner.Stop Slots.Model Slots.ProofsKv Slots.ProofsSlots.
+From V Require Import Common.Bytes Slots.StopFns Slots.Model Slots.ProofsKv Slots.ProofsSlots.
 Import ListNotations.
 Open Scope Z_scope.
 
